@@ -573,6 +573,7 @@ func (dr *dirRepo) repoInit(locked bool) error {
 		return fmt.Errorf("index.json is a directory: %s", indexName)
 	}
 	if err != nil && errors.Is(err, fs.ErrNotExist) {
+		dr.indexDefault()
 		err = dr.indexSave(locked)
 	}
 	if err != nil {
@@ -582,15 +583,8 @@ func (dr *dirRepo) repoInit(locked bool) error {
 	return nil
 }
 
-func (dr *dirRepo) indexLoad(force, locked bool) error {
-	if !locked {
-		dr.mu.Lock()
-		defer dr.mu.Unlock()
-		locked = true
-	}
-	if !force && time.Since(dr.timeCheck) < freqCheck {
-		return nil
-	}
+// indexDefault sets the default values of an index that has not been loaded or created yet.
+func (dr *dirRepo) indexDefault() {
 	if dr.index.MediaType == "" && len(dr.index.Manifests) == 0 {
 		// default values for the index if the load fails (does not exist or unparsable)
 		dr.index = types.Index{
@@ -603,6 +597,18 @@ func (dr *dirRepo) indexLoad(force, locked bool) error {
 			dr.index.Annotations[types.AnnotReferrerConvert] = "true"
 		}
 	}
+}
+
+func (dr *dirRepo) indexLoad(force, locked bool) error {
+	if !locked {
+		dr.mu.Lock()
+		defer dr.mu.Unlock()
+		locked = true
+	}
+	if !force && time.Since(dr.timeCheck) < freqCheck {
+		return nil
+	}
+	dr.indexDefault()
 	fh, err := os.Open(filepath.Join(dr.path, indexFile))
 	if err != nil {
 		if errors.Is(err, fs.ErrNotExist) {
